@@ -166,7 +166,7 @@ func (cr *serverConnReader) handleTunneling(in io.ReadWriter) (io.ReadWriter, er
 			return nil, err
 
 		case isWebSocketTunnel(req):
-			resw := &wsResponseWriter{r: cr.sc.nconn, buf: buf, w: in, req: req}
+			resw := &wsResponseWriter{nconn: cr.sc.nconn, r: cr.sc.nconn, buf: buf, w: in, req: req}
 			resw.initialize()
 			var wconn *websocket.Conn
 			wconn, err = upgrader.Upgrade(resw, req, nil)
